@@ -15,6 +15,13 @@ pub fn pipe() -> IoResult<(AsyncFd<OwnedFd>, AsyncFd<OwnedFd>)> {
     Ok(pipe)
 }
 
+/// Half-close: tell the peer behind `fd` that no more data follows, as `AsyncWriteExt::shutdown` does
+/// for a buffered stream.
+pub fn shutdown_write(fd: &AsyncFd<impl AsRawFd>) -> IoResult<()> {
+    nix::sys::socket::shutdown(fd.as_raw_fd(), nix::sys::socket::Shutdown::Write)
+        .map_err(|e| io::Error::from_raw_os_error(e as i32))
+}
+
 pub async fn async_splice(
     fd_in: &mut AsyncFd<impl AsRawFd>,
     fd_out: &AsyncFd<impl AsRawFd>,
